@@ -52,6 +52,15 @@ def _ev(t, env):
             return int(t)
         return env[t]
     op, args = t[0], t[1:]
+    if isinstance(op, list):                          # ((_ int2bv 64) x)
+        if op[:2] == ['_', 'int2bv']:
+            return _ev(args[0], env) % (2 ** int(op[2]))
+        raise KeyError(str(op))
+    if op == 'bv2nat':
+        return _ev(args[0], env)
+    if op in ('bvor', 'bvand', 'bvxor'):
+        a, b = _ev(args[0], env), _ev(args[1], env)
+        return a | b if op == 'bvor' else a & b if op == 'bvand' else a ^ b
     if op == 'ite':
         return _ev(args[1], env) if _ev(args[0], env) else _ev(args[2], env)
     if op == 'and':
@@ -80,6 +89,8 @@ def _ev(t, env):
 
 
 def _q(name, text, out, solv=('z3-4.8', 'cvc5'), timeout=120, extra=None):
+    if 'int2bv' in text:
+        timeout = min(timeout, 40)          # mixed Int/BV queries either finish fast or not at all
     r = solvers.check(text, solv, timeout, extra)
     out.append({'name': name, 'verdict': r['verdict'], 'per_solver': r['per_solver'], 'n': len(r['per_solver']),
                 'time_s': round(sum(p['time_s'] for p in r['per_solver']), 3)})
@@ -108,6 +119,8 @@ def k1_uvari(_p=None):
         paths = ex.run(fn.body, {arg: I('v')})
     except (Untranslatable, KeyError) as e:
         return {'verdict': 'inconclusive', 'message': str(e), 'queries': queries}
+    side = ''.join(f'(assert {c})\n' for c in sorted(set(ex.side)))      # only present when bit operators are used
+    logic = 'ALL' if ex.side else 'QF_LIA'
     # validate the translation against the real function on boundary inputs
     from dliswriter.utils.internal.struct_writer import write_struct_uvari
     for v in (-1, 0, 1, 127, 128, 129, 255, 256, 16383, 16384, 16385, 65535, 65536, 2 ** 24, 2 ** 30 - 1, 2 ** 30, 2 ** 32):
@@ -143,17 +156,19 @@ def k1_uvari(_p=None):
         else:
             good = f'(and (>= {e} 3221225472) (< {e} 4294967296) (= (- {e} 3221225472) v) (>= v 16384))'
         sample['paths'].append({'cond': c, 'format': fmt, 'value': e})
-        q1 = f'(set-logic QF_LIA)\n(declare-const v Int)\n(assert {c})\n(assert (and (>= v 0) (< v 1073741824)))\n(assert (not {good}))\n(check-sat)\n(get-value (v))\n'
+        q1 = f'(set-logic {logic})\n(declare-const v Int)\n{side}(assert {c})\n(assert (and (>= v 0) (< v 1073741824)))\n(assert (not {good}))\n(check-sat)\n(get-value (v))\n'
         r = _q(f'uvari_path{i}_roundtrip', q1, queries)
         if r['verdict'] != 'unsat' and not bad:
             m = solvers.parse_model_ints(r['model'])
             bad = (r['verdict'], f'UVARI path {i} ({fmt}) does not round-trip for v={m.get("v")}', [m.get('v')])
-        q2 = f'(set-logic QF_LIA)\n(declare-const v Int)\n(assert {c})\n(assert (or (< v 0) (>= v 1073741824)))\n(assert (and (>= {e} 0) (< {e} {top})))\n(check-sat)\n(get-value (v))\n'
+        q2 = f'(set-logic {logic})\n(declare-const v Int)\n{side}(assert {c})\n(assert (or (< v 0) (>= v 1073741824)))\n(assert (and (>= {e} 0) (< {e} {top})))\n(check-sat)\n(get-value (v))\n'
         r = _q(f'uvari_path{i}_rejects', q2, queries)
         if r['verdict'] != 'unsat' and not bad:
             m = solvers.parse_model_ints(r['model'])
             bad = (r['verdict'], f'UVARI path {i} ({fmt}) accepts unrepresentable v={m.get("v")}', [m.get('v')])
-    return _finish(queries, bad, sample, 'UVARI canonical and total over Z (unsat on z3 and cvc5)', bad[2] if bad else None)
+    if ex.side:
+        sample['side_conditions'] = sorted(set(ex.side))
+    return _finish(queries, bad, sample, 'UVARI canonical and total over Z (unsat on z3 and cvc5)' + (' under the bit-operator side conditions (values < 2**64)' if ex.side else ''), bad[2] if bad else None)
 
 
 # ------------------------------------------------------------------------------------- K2 segment loop, inductive step
